@@ -80,7 +80,7 @@ theorem heapPop_sub : ∀ (h : Heap K) (e : Nat × K), e ∈ heapPop h → e ∈
         · exact Or.inr (heapPop_sub t e he)
 
 /-- the admission block of `search` (shared by both classes) -/
-def admit (k idx : Nat) (dist : K) (s : SearchState K) : SearchState K :=
+def admitItem (k idx : Nat) (dist : K) (s : SearchState K) : SearchState K :=
   if (match s.tau with | none => true | some t => decide (dist < t)) then
     ⟨if ((idx, dist) :: (if s.heap.length = k then heapPop s.heap else s.heap)).length = k then
         heapTop ((idx, dist) :: (if s.heap.length = k then heapPop s.heap else s.heap)) else s.tau,
@@ -88,8 +88,8 @@ def admit (k idx : Nat) (dist : K) (s : SearchState K) : SearchState K :=
   else s
 
 theorem admit_nonneg (k idx : Nat) (dist : K) (hd : 0 ≤ dist) (s : SearchState K) (hs : NonNeg s) :
-    NonNeg (admit k idx dist s) := by
-  unfold admit
+    NonNeg (admitItem k idx dist s) := by
+  unfold admitItem
   by_cases hc : (match s.tau with | none => true | some t => decide (dist < t)) = true
   · rw [if_pos hc]
     have hh : ∀ e ∈ ((idx, dist) :: (if s.heap.length = k then heapPop s.heap else s.heap)), 0 ≤ e.2 := by
@@ -112,9 +112,9 @@ theorem admit_nonneg (k idx : Nat) (dist : K) (hd : 0 ≤ dist) (s : SearchState
   · rw [if_neg hc]; exact hs
 
 theorem admit_eq (k idx : Nat) (dist : K) (s : SearchState K) :
-    toS (admit k idx dist s) = VpTree.admission VpTree.popMaxFirst k idx dist (toS s) := by
+    toS (admitItem k idx dist s) = VpTree.admission VpTree.popMaxFirst k idx dist (toS s) := by
   obtain ⟨tau, heap⟩ := s
-  unfold admit VpTree.admission toS VpTree.ltTau
+  unfold admitItem VpTree.admission toS VpTree.ltTau
   cases tau with
   | none =>
     simp only [if_true]
@@ -130,12 +130,12 @@ theorem admit_eq (k idx : Nat) (dist : K) (s : SearchState K) :
       · simp only [hl, if_false, heapTop_eq]
     · simp only [hd, decide_false, Bool.false_eq_true, if_false]
 
-/-- `vpSearch` written with `admit` -/
+/-- `vpSearch` written with `admitItem` -/
 theorem vpSearch_node (distf : List K → List K → K) (items : Nat → List K) (target : List K) (k idx : Nat) (thr : K)
     (l r : VpNode K) (s : SearchState K) :
     vpSearch distf items target k (.node idx thr l r) s =
       (let dist := distf (items idx) target
-       let s1 := admit k idx dist s
+       let s1 := admitItem k idx dist s
        if l.isNil && r.isNil then s1
        else if dist < thr then
          let s2 := vpSearch distf items target k l s1
@@ -145,7 +145,7 @@ theorem vpSearch_node (distf : List K → List K → K) (items : Nat → List K)
          let s2 := vpSearch distf items target k r s1
          if (match s2.tau with | none => true | some t => decide (dist - t ≤ thr)) then
            vpSearch distf items target k l s2 else s2) := by
-  unfold admit
+  unfold admitItem
   rfl
 
 theorem vpSearch_nonneg (distf : List K → List K → K) (hd : ∀ a b, 0 ≤ distf a b) (items : Nat → List K)
@@ -213,7 +213,7 @@ theorem vpSearch_eq (distf : List K → List K → K) (hd : ∀ a b, 0 ≤ distf
       by_cases hlt : distf (items idx) (items q) < thr
       · simp only [hlt, if_true]
         have hL := leftTest_true_of (distf (items idx) (items q)) thr
-          (toS (admit k idx (distf (items idx) (items q)) s)).tau hlt h1.2
+          (toS (admitItem k idx (distf (items idx) (items q)) s)).tau hlt h1.2
         rw [hL]
         simp only [if_true]
         rw [← ihl _ h1, rightTest_eq, apply_ite toS]
@@ -222,7 +222,7 @@ theorem vpSearch_eq (distf : List K → List K → K) (hd : ∀ a b, 0 ≤ distf
         rfl
       · simp only [hlt, if_false]
         have hR := rightTest_true_of (distf (items idx) (items q)) thr
-          (toS (admit k idx (distf (items idx) (items q)) s)).tau (not_lt.mp hlt) h1.2
+          (toS (admitItem k idx (distf (items idx) (items q)) s)).tau (not_lt.mp hlt) h1.2
         rw [hR]
         simp only [if_true]
         rw [← ihr _ h1, leftTest_eq, apply_ite toS]
